@@ -43,7 +43,19 @@ template <typename T1, typename T2>
 CompareResult arithmeticCompare(
     const T1& lhs, const T2& rhs,
     enable_if_t<is_integral<T1>::value && is_integral<T2>::value &&
-                sizeof(T2) < sizeof(T1)>* = 0) {
+                sizeof(T2) < sizeof(T1) &&
+                !(is_unsigned<T1>::value && is_signed<T2>::value)>* = 0) {
+  return arithmeticCompare<T1>(lhs, static_cast<T1>(rhs));
+}
+
+template <typename T1, typename T2>
+CompareResult arithmeticCompare(
+    const T1& lhs, const T2& rhs,
+    enable_if_t<is_integral<T1>::value && is_integral<T2>::value &&
+                sizeof(T2) < sizeof(T1) && is_unsigned<T1>::value &&
+                is_signed<T2>::value>* = 0) {
+  if (rhs < 0)
+    return COMPARE_RESULT_GREATER;
   return arithmeticCompare<T1>(lhs, static_cast<T1>(rhs));
 }
 
